@@ -32,9 +32,20 @@
                               the second clause of C07_statement (parsing yields related records) for the
                               opaque-path class of inputs (non-special scheme, rest not led by '/'), and
                               with it the statement for that class x the five setters x all histories
-   The gap: the protocol, host, hostname, pathname and href setters for all records and values, and
-   "every parse outside Known_C01 yields records related by corr" (the second clause of C07_statement)
-   beyond the opaque-path class and the 20 computed start URLs.
+     C07_protocol_equiv, C07_six_setters_partial / C07_six_histories, C07_sane_kept, C07_protocol_needs_sane
+                              the same for protocol (outside class 6, F-C07-7) with the relation corrS = corr +
+                              the invariants `sane` of the Standard's record (needed: witness), six setters
+     C07_hostname_equiv, C07_seven_setters_partial / C07_seven_histories
+                              the same for hostname on non-file URLs (outside classes 2, 3, 4), host parsers =
+                              arbitrary agreeing functions (host_fns_ok); seven setters
+     C07_protocol_standard_closed, C07_hostname_standard_closed
+                              the Standard's protocol / hostname setters in closed form
+     C07_opaque_class_corrS, C07_pathonly_class_corrS, C07_authority_class_corrS, C07_seven_classes,
+     C07_statement_seven_classes
+                              parsing yields corrS on the three proved no-base classes of non-special schemes
+                              of C01; with it the statement for these start URLs x seven setters x all histories
+   The gap: the host, pathname and href setters, hostname on file URLs, and "every parse outside Known_C01
+   yields records related by corrS" for special schemes (the second clause of C07_statement).
    It is covered by the fixed-seed differential run implementation <-> specification model of the
    harness (a test). *)
 From Coq Require Import String.
@@ -42,7 +53,12 @@ From RU Require Import Base.Prelude Base.Utf8 Model.AsciiSet Gen.Tables Model.Pe
   Model.HostT Model.UrlRecord Model.Parser Model.Setters Model.WF Model.KnownC01 Model.KnownC07 Spec.Whatwg
   Proofs.C06_FragQuery
   Proofs.C07_Defs Proofs.C07_Histories Proofs.C07_Setters Proofs.C07_GetSet Proofs.C07_Small
-  Proofs.C07_Corr Proofs.C07_EqFive Proofs.C07_EqOpaqueClass.
+  Proofs.C07_Corr Proofs.C07_EqFive Proofs.C07_EqOpaqueClass
+  Proofs.C01_EqRun Proofs.C07_SpecRun Proofs.C07_SpecProto Proofs.C07_EqProto Proofs.C07_EqSix
+  Proofs.C02_Enc Proofs.C01_EqPath Proofs.C01_EqClasses Proofs.C01_EqAuth Proofs.C07_EqPathClass Proofs.C07_EqAuthClass
+  Model.Host Spec.WhatwgHost Spec.WhatwgHostParse Proofs.C01_EqAuthSpec Proofs.C01_EqAuthModel Proofs.C01_EqClasses2 Proofs.C01_EqAuthHost
+  Proofs.C07_EqAuthParse Proofs.C07_EqAuthHost
+  Proofs.C07_SpecHost Proofs.C07_EqHostname Proofs.C07_EqSeven.
 
 (* ---------- the statement ---------- *)
 
@@ -334,6 +350,457 @@ Proof. eexists. eexists. vm_compute. repeat split. Qed.
 Example C07_five_ops_inhabited :
   five_ops [(QHash, str "#a b"); (QSearch, str "?x=1#y"); (QUsername, str "me@"); (QPassword, []); (QPort, str "8080x")].
 Proof. cbn [five_ops five]. repeat split; repeat constructor; vm_compute; auto. Qed.
+
+(* ---------- protocol; six setters: all related records, all values, all histories ---------- *)
+
+(* the Standard's protocol setter in closed form: the basic URL parser run from the scheme start state
+   with a state override on "value:" either leaves the record (no scheme before the first ':', or one
+   of steps 2.1.1 - 2.1.4 of the scheme state refuses) or replaces the scheme and drops a port that is
+   the new default port *)
+Theorem C07_protocol_standard_closed : forall shp su v,
+  spec_set shp SetProtocol su v
+  = SetTo (match spec_scheme (notnl v ++ [58]) with
+           | Some (sch, _) => if proto_refuses su sch then su else renorm (Whatwg.set_scheme su sch)
+           | None => su end).
+Proof. exact spec_protocol_closed. Qed.
+Check C07_protocol_standard_closed : forall shp su v,
+  spec_set shp SetProtocol su v
+  = SetTo (match spec_scheme (notnl v ++ [58]) with
+           | Some (sch, _) => if proto_refuses su sch then su else renorm (Whatwg.set_scheme su sch)
+           | None => su end).
+Print Assumptions C07_protocol_standard_closed.
+
+(* protocol: scheme start state / scheme state with a state override.  The relation is corrS = corr
+   together with the invariants `sane` of the Standard's record (a URL that cannot have a
+   username/password/port has none; a special URL has a host, non-empty unless the scheme is "file"; an
+   opaque path comes without host) - without them the decision of Url::set_scheme, which looks at
+   has_authority() and has_host(), is not the Standard's.  Outside class 6 of Known_C07 (protocol := file
+   on a special URL that is not a file URL, F-C07-7).  file -> file: refused by the code, a no-op in the
+   Standard. *)
+Theorem C07_protocol_equiv : forall dbg hp ho hd shp shs u su v, corrS dbg shs u su -> usv_list v ->
+  known_c07 u QProtocol v = 0 ->
+  exists u' su', model_set dbg hp ho hd QProtocol u v = Some u' /\ spec_step shp QProtocol su v = Some su'
+    /\ corrS dbg shs u' su' /\ model_api dbg u' = Some (spec_api_list shs su').
+Proof. exact protocol_equiv. Qed.
+Check C07_protocol_equiv : forall dbg hp ho hd shp shs u su v, corrS dbg shs u su -> usv_list v ->
+  known_c07 u QProtocol v = 0 ->
+  exists u' su', model_set dbg hp ho hd QProtocol u v = Some u' /\ spec_step shp QProtocol su v = Some su'
+    /\ corrS dbg shs u' su' /\ model_api dbg u' = Some (spec_api_list shs su').
+Print Assumptions C07_protocol_equiv.
+
+(* the invariants are kept by the Standard's protocol setter and by the five setters above *)
+Theorem C07_sane_kept : forall shp s su v su', six s = true -> sane su ->
+  spec_step shp s su v = Some su' -> sane su'.
+Proof. exact spec_six_sane. Qed.
+Print Assumptions C07_sane_kept.
+
+(* ... and they are needed: a pair related by corr whose Standard's record is "http:/p" without a host
+   (no parser or setter of the Standard produces it): the code refuses http -> https because has_host()
+   is false, the Standard carries it out; the assignment is outside Known_C07 *)
+Theorem C07_protocol_needs_sane :
+  corr true toy_shs nosane_u nosane_su
+  /\ known_c07 nosane_u QProtocol (str "https") = 0
+  /\ exists u' su',
+       model_set true toy_hp toy_ho toy_hd QProtocol nosane_u (str "https") = Some u'
+       /\ spec_step toy_shp QProtocol nosane_su (str "https") = Some su'
+       /\ toy_api_agree u' su' = false.
+Proof. exact protocol_needs_sane. Qed.
+Print Assumptions C07_protocol_needs_sane.
+
+(* PARTIAL C07_statement: its one-step clause (`one_step`) with R := corrS, restricted to six of the ten
+   setters and to values that are strings of scalar values (every Rust &str is).  Missing: host,
+   hostname, pathname, href; and that parsing yields records related by corrS beyond the classes below. *)
+Theorem C07_six_setters_partial : forall dbg hp ho hd shp shs u su s v,
+  corrS dbg shs u su -> six s = true -> usv_list v -> known_c07 u s v = 0 ->
+  exists u' su', model_set dbg hp ho hd s u v = Some u' /\ spec_step shp s su v = Some su'
+    /\ corrS dbg shs u' su' /\ model_api dbg u' = Some (spec_api_list shs su').
+Proof. exact six_step_api. Qed.
+Check C07_six_setters_partial : forall dbg hp ho hd shp shs u su s v,
+  corrS dbg shs u su -> six s = true -> usv_list v -> known_c07 u s v = 0 ->
+  exists u' su', model_set dbg hp ho hd s u v = Some u' /\ spec_step shp s su v = Some su'
+    /\ corrS dbg shs u' su' /\ model_api dbg u' = Some (spec_api_list shs su').
+Print Assumptions C07_six_setters_partial.
+
+(* ... along every history of assignments through the six setters *)
+Theorem C07_six_histories : forall dbg hp ho hd shp shs ops u su,
+  corrS dbg shs u su -> six_ops ops -> outside_known dbg hp ho hd u ops ->
+  forall n, exists u' su',
+    model_run dbg hp ho hd u (firstn n ops) = Some u'
+    /\ spec_run shp su (firstn n ops) = Some su'
+    /\ corrS dbg shs u' su'
+    /\ model_api dbg u' = Some (spec_api_list shs su').
+Proof. exact six_histories. Qed.
+Check C07_six_histories : forall dbg hp ho hd shp shs ops u su,
+  corrS dbg shs u su -> six_ops ops -> outside_known dbg hp ho hd u ops ->
+  forall n, exists u' su',
+    model_run dbg hp ho hd u (firstn n ops) = Some u'
+    /\ spec_run shp su (firstn n ops) = Some su'
+    /\ corrS dbg shs u' su'
+    /\ model_api dbg u' = Some (spec_api_list shs su').
+Print Assumptions C07_six_histories.
+
+(* parsing yields records related by corrS on the opaque-path class of inputs ... *)
+Theorem C07_opaque_class_corrS : forall dbg hp ho hd shp shs input sch rem, usv_list input ->
+  parse_scheme CUrlParser (input_new_trim_c0 input) = Some (sch, rem) ->
+  scheme_type_of sch = STNotSpecial -> inp_split_prefix_char 47 rem = None ->
+  exists su, spec_basic_url_parse shp input None = BDone su
+    /\ (parse_url dbg hp ho hd None None input = PErr Overflow
+        \/ exists u, parse_url dbg hp ho hd None None input = POk u /\ corrS dbg shs u su).
+Proof. exact opaque_class_corrS. Qed.
+Print Assumptions C07_opaque_class_corrS.
+
+(* ... so C07_statement holds restricted to start URLs of that class and to the six setters, histories
+   included: parse, then any sequence of protocol / hash / search / username / password / port
+   assignments with any values *)
+Theorem C07_six_opaque_class : forall dbg hp ho hd shp shs input sch rem u ops, usv_list input ->
+  parse_scheme CUrlParser (input_new_trim_c0 input) = Some (sch, rem) ->
+  scheme_type_of sch = STNotSpecial -> inp_split_prefix_char 47 rem = None ->
+  parse_url dbg hp ho hd None None input = POk u ->
+  six_ops ops -> outside_known dbg hp ho hd u ops ->
+  exists su, spec_basic_url_parse shp input None = BDone su
+    /\ model_api dbg u = Some (spec_api_list shs su)
+    /\ forall n, exists u' su',
+         model_run dbg hp ho hd u (firstn n ops) = Some u'
+         /\ spec_run shp su (firstn n ops) = Some su'
+         /\ model_api dbg u' = Some (spec_api_list shs su').
+Proof. exact six_from_opaque_class. Qed.
+Check C07_six_opaque_class : forall dbg hp ho hd shp shs input sch rem u ops, usv_list input ->
+  parse_scheme CUrlParser (input_new_trim_c0 input) = Some (sch, rem) ->
+  scheme_type_of sch = STNotSpecial -> inp_split_prefix_char 47 rem = None ->
+  parse_url dbg hp ho hd None None input = POk u ->
+  six_ops ops -> outside_known dbg hp ho hd u ops ->
+  exists su, spec_basic_url_parse shp input None = BDone su
+    /\ model_api dbg u = Some (spec_api_list shs su)
+    /\ forall n, exists u' su',
+         model_run dbg hp ho hd u (firstn n ops) = Some u'
+         /\ spec_run shp su (firstn n ops) = Some su'
+         /\ model_api dbg u' = Some (spec_api_list shs su').
+Print Assumptions C07_six_opaque_class.
+
+(* parsing yields records related by corrS on the authority-less class of the C01 equivalence: no base,
+   non-special scheme, "scheme:/" not followed by a second '/', no ".." that meets a drive-letter-shaped
+   segment (F-C01-9) - dot segments, "/." marker, query, fragment, tab / LF / CR anywhere ... *)
+Theorem C07_pathonly_class_corrS : forall dbg hp ho hd shp shs input, usv_list input ->
+  in_class_pathonly input = true ->
+  exists su, spec_basic_url_parse shp input None = BDone su
+    /\ (parse_url dbg hp ho hd None None input = PErr Overflow
+        \/ exists u, parse_url dbg hp ho hd None None input = POk u /\ corrS dbg shs u su).
+Proof. exact pathonly_class_corrS. Qed.
+Check C07_pathonly_class_corrS : forall dbg hp ho hd shp shs input, usv_list input ->
+  in_class_pathonly input = true ->
+  exists su, spec_basic_url_parse shp input None = BDone su
+    /\ (parse_url dbg hp ho hd None None input = PErr Overflow
+        \/ exists u, parse_url dbg hp ho hd None None input = POk u /\ corrS dbg shs u su).
+Print Assumptions C07_pathonly_class_corrS.
+
+(* ... so C07_statement holds restricted to start URLs of that class and to the six setters, histories
+   included *)
+Theorem C07_six_pathonly_class : forall dbg hp ho hd shp shs input u ops, usv_list input ->
+  in_class_pathonly input = true ->
+  parse_url dbg hp ho hd None None input = POk u ->
+  six_ops ops -> outside_known dbg hp ho hd u ops ->
+  exists su, spec_basic_url_parse shp input None = BDone su
+    /\ model_api dbg u = Some (spec_api_list shs su)
+    /\ forall n, exists u' su',
+         model_run dbg hp ho hd u (firstn n ops) = Some u'
+         /\ spec_run shp su (firstn n ops) = Some su'
+         /\ model_api dbg u' = Some (spec_api_list shs su').
+Proof. exact six_from_pathonly_class. Qed.
+Check C07_six_pathonly_class : forall dbg hp ho hd shp shs input u ops, usv_list input ->
+  in_class_pathonly input = true ->
+  parse_url dbg hp ho hd None None input = POk u ->
+  six_ops ops -> outside_known dbg hp ho hd u ops ->
+  exists su, spec_basic_url_parse shp input None = BDone su
+    /\ model_api dbg u = Some (spec_api_list shs su)
+    /\ forall n, exists u' su',
+         model_run dbg hp ho hd u (firstn n ops) = Some u'
+         /\ spec_run shp su (firstn n ops) = Some su'
+         /\ model_api dbg u' = Some (spec_api_list shs su').
+Print Assumptions C07_six_pathonly_class.
+
+(* the class is inhabited: " A:/x/../y/./%2E%2e/z w/..//?q#f " *)
+Example C07_pathonly_class_inhabited :
+  in_class_pathonly (str " A:/x/../y/./%2E%2e/z w/..//?q#f ") = true.
+Proof. vm_compute. reflexivity. Qed.
+
+(* the canonical records of the authority class of the C01 equivalence ("scheme://[userinfo@]host[:port]
+   [/path][?q][#f]", non-special scheme; Proofs/C01_EqAuth.v auth_url / spec_auth_url) are related by
+   corr and the Standard's one is `sane`, given the four facts about host and username that the two
+   parsers establish.  (Not yet connected to parse_url: C01's class theorem hides the canonical form.) *)
+Theorem C07_auth_canonical_corrS : forall dbg shs sch un pw ht hi sh po segs q f,
+  auth_ok shs sch un pw ht hi sh po segs q f ->
+  (hi = HI_None <-> sh = SEmpty) -> (ht = [] -> hi = HI_None) -> starts_with_cp 64 ht = false ->
+  clean T_USERINFO un = true -> (hi = HI_None -> un = [] /\ pw = []) ->
+  corrS dbg shs (auth_url sch un pw ht hi po (flat_map (fun s => 47 :: s) segs) q f)
+                (spec_auth_url sch un pw sh po segs q f).
+Proof. exact corrS_auth. Qed.
+Print Assumptions C07_auth_canonical_corrS.
+
+(* parsing yields records related by corrS on the authority class of the C01 equivalence: no base,
+   non-special scheme, "scheme://[userinfo@]host[:port][/path][?q][#f]" (in_class_authority: every such
+   scalar-value input except authority ":@", a port directly followed by '\' - F-C01-8 - and ".." meeting a
+   drive-letter-shaped segment - F-C01-9).  The host functions of the two sides are arbitrary functions
+   that agree on the ONE string they are applied to: host_agree of C01 (same text, not led by ':', empty
+   exactly for the empty string) and host_extra (the model's host is the empty domain exactly when the
+   Standard's is the empty host; the text is not led by '@').  Both parsers fail, or the model reports
+   Overflow, or the two records are related. *)
+Theorem C07_authority_class_corrS : forall dbg hp hpo hd ovr shp shs input, usv_list input ->
+  in_class_authority input = true ->
+  host_agree hpo hd shp shs (class_host_text input) -> host_extra hpo hd shp (class_host_text input) ->
+  match spec_basic_url_parse shp input None with
+  | BDone su => parse_url dbg hp hpo hd ovr None input = PErr Overflow
+                \/ exists u, parse_url dbg hp hpo hd ovr None input = POk u /\ corrS dbg shs u su
+  | BFailure _ => exists e, parse_url dbg hp hpo hd ovr None input = PErr e
+  | BOutOfFuel => False
+  end.
+Proof. exact authority_class_corrS. Qed.
+Check C07_authority_class_corrS : forall dbg hp hpo hd ovr shp shs input, usv_list input ->
+  in_class_authority input = true ->
+  host_agree hpo hd shp shs (class_host_text input) -> host_extra hpo hd shp (class_host_text input) ->
+  match spec_basic_url_parse shp input None with
+  | BDone su => parse_url dbg hp hpo hd ovr None input = PErr Overflow
+                \/ exists u, parse_url dbg hp hpo hd ovr None input = POk u /\ corrS dbg shs u su
+  | BFailure _ => exists e, parse_url dbg hp hpo hd ovr None input = PErr e
+  | BOutOfFuel => False
+  end.
+Print Assumptions C07_authority_class_corrS.
+
+(* ... so C07_statement holds restricted to start URLs of that class and to the six setters, histories
+   included *)
+Theorem C07_six_authority_class : forall dbg hp hpo hd shp shs input u ops, usv_list input ->
+  in_class_authority input = true ->
+  host_agree hpo hd shp shs (class_host_text input) -> host_extra hpo hd shp (class_host_text input) ->
+  parse_url dbg hp hpo hd None None input = POk u ->
+  six_ops ops -> outside_known dbg hp hpo hd u ops ->
+  exists su, spec_basic_url_parse shp input None = BDone su
+    /\ model_api dbg u = Some (spec_api_list shs su)
+    /\ forall n, exists u' su',
+         model_run dbg hp hpo hd u (firstn n ops) = Some u'
+         /\ spec_run shp su (firstn n ops) = Some su'
+         /\ model_api dbg u' = Some (spec_api_list shs su').
+Proof. exact six_from_authority_class_plain. Qed.
+Check C07_six_authority_class : forall dbg hp hpo hd shp shs input u ops, usv_list input ->
+  in_class_authority input = true ->
+  host_agree hpo hd shp shs (class_host_text input) -> host_extra hpo hd shp (class_host_text input) ->
+  parse_url dbg hp hpo hd None None input = POk u ->
+  six_ops ops -> outside_known dbg hp hpo hd u ops ->
+  exists su, spec_basic_url_parse shp input None = BDone su
+    /\ model_api dbg u = Some (spec_api_list shs su)
+    /\ forall n, exists u' su',
+         model_run dbg hp hpo hd u (firstn n ops) = Some u'
+         /\ spec_run shp su (firstn n ops) = Some su'
+         /\ model_api dbg u' = Some (spec_api_list shs su').
+Print Assumptions C07_six_authority_class.
+
+(* the two hypotheses on the host functions hold for the host functions as they are - Host::parse_opaque +
+   Display (Model/Host.v) and the Standard's host parser / serializer (Spec/WhatwgHostParse.v), any IDNA
+   oracle - on every string that does not start with '[' *)
+Theorem C07_host_hyps_real : forall idna s, usv_list s -> Host.starts_with 91 s = false ->
+  host_agree host_parse_opaque host_display (spec_host_parser idna) spec_host_serializer s
+  /\ host_extra host_parse_opaque host_display (spec_host_parser idna) s.
+Proof. exact host_hyps_real. Qed.
+Print Assumptions C07_host_hyps_real.
+
+(* non-vacuity with the real host functions: " N://u:p@q@H.x:080/a/../b?q#f" is in the class and its host
+   text "H.x" meets both hypotheses *)
+Example C07_authority_class_inhabited :
+  let i1 := [32; 78; 58; 47; 47; 117; 58; 112; 64; 113; 64; 72; 46; 120; 58; 48; 56; 48; 47; 97; 47; 46; 46; 47; 98; 63; 113; 35; 102] in
+  usv_list i1 /\ in_class_authority i1 = true /\ class_host_text i1 = [72; 46; 120]
+  /\ host_agree host_parse_opaque host_display (spec_host_parser (fun x => Some x)) spec_host_serializer (class_host_text i1)
+  /\ host_extra host_parse_opaque host_display (spec_host_parser (fun x => Some x)) (class_host_text i1).
+Proof.
+  cbv zeta. split; [repeat constructor; vm_compute; auto|]. split; [vm_compute; reflexivity|].
+  split; [vm_compute; reflexivity|].
+  assert (class_host_text [32; 78; 58; 47; 47; 117; 58; 112; 64; 113; 64; 72; 46; 120; 58; 48; 56; 48; 47; 97; 47; 46; 46; 47; 98; 63; 113; 35; 102]
+          = [72; 46; 120]) as -> by (vm_compute; reflexivity).
+  apply C07_host_hyps_real; [repeat constructor; vm_compute; auto | reflexivity].
+Qed.
+
+(* the 20 start URLs of the small scope and the 15 of the protocol table (special, file, non-special,
+   opaque path, empty host, credentials, port, "/." marker) are related by corrS to their Standard's
+   parse: for them the ten API strings agree after every prefix of every history of the six setters,
+   whatever the values *)
+Theorem C07_six_small_starts : forall st ops, In st (small_starts ++ proto_starts) -> six_ops ops ->
+  forall u, toy_parse st = Some u -> outside_known true toy_hp toy_ho toy_hd u ops ->
+  exists su, toy_sparse st = Some su
+    /\ forall n, exists u' su',
+         model_run true toy_hp toy_ho toy_hd u (firstn n ops) = Some u'
+         /\ spec_run toy_shp su (firstn n ops) = Some su'
+         /\ model_api true u' = Some (spec_api_list toy_shs su').
+Proof. exact six_from_small_starts. Qed.
+Print Assumptions C07_six_small_starts.
+
+(* the hypotheses can be met: "https://u:p@h:81/a?q#f" is related by corrS to its Standard's parse, the
+   history below is a six-setter history, and none of its steps is in Known_C07 *)
+Example C07_six_inhabited :
+  exists u su, toy_parse (str "https://u:p@h:81/a?q#f") = Some u
+    /\ toy_sparse (str "https://u:p@h:81/a?q#f") = Some su
+    /\ corrS true toy_shs u su
+    /\ six_ops [(QProtocol, str "WS:x"); (QPort, str "80"); (QProtocol, str "ftp"); (QHash, str "#a b")]
+    /\ outside_known true toy_hp toy_ho toy_hd u
+         [(QProtocol, str "WS:x"); (QPort, str "80"); (QProtocol, str "ftp"); (QHash, str "#a b")].
+Proof.
+  destruct (starts_corrS [str "https://u:p@h:81/a?q#f"] ltac:(vm_compute; reflexivity) _ (or_introl eq_refl))
+    as (u & su & A & B & C).
+  exists u, su. split; [exact A|]. split; [exact B|]. split; [exact C|].
+  split; [cbn [six_ops six]; repeat split; repeat constructor; vm_compute; auto|].
+  revert A. vm_compute. intros A. injection A as <-. vm_compute. repeat split.
+Qed.
+
+(* ---------- hostname; seven setters ---------- *)
+
+(* the Standard's hostname setter in closed form, for a URL whose scheme is not "file": opaque path =>
+   unchanged; otherwise the host state scans the value (tab / newline removed) up to the first of / ? #
+   (and \ for a special URL) or a ':' outside brackets (hscan); ':' => unchanged; empty text on a special
+   URL, or with credentials or a port => unchanged; host parser failure => unchanged; else the host is set *)
+Theorem C07_hostname_standard_closed : forall shp su v, list_eqb (su_scheme su) str_file = false ->
+  spec_set shp SetHostname su v
+  = SetTo (if has_opaque_path su then su
+           else hostname_decide shp su (hscan (is_special su) false [] (notnl v))).
+Proof. exact spec_hostname_closed. Qed.
+Print Assumptions C07_hostname_standard_closed.
+
+(* hostname: host state with the state override "hostname state" against Parser::parse_host +
+   Url::set_host_internal.  Outside classes 2, 3, 4 of Known_C07 (':' outside brackets in the value,
+   F-C07-1; URL without host whose path starts with "//", F-C07-2 / F-C03-5; file URLs, F-C07-10).  The
+   host parsers are arbitrary functions that agree (host_fns_ok): both fail or both succeed with the same
+   text; the text is empty for the empty host and otherwise starts with neither ':' nor '@'; the empty
+   host is the result exactly for the empty string. *)
+Theorem C07_hostname_equiv : forall dbg hp ho hd shp shs, host_fns_ok hp ho hd shp shs ->
+  forall u su v, corrS dbg shs u su -> usv_list v -> known_c07 u QHostname v = 0 ->
+  exists u' su', model_set dbg hp ho hd QHostname u v = Some u' /\ spec_step shp QHostname su v = Some su'
+    /\ corrS dbg shs u' su' /\ model_api dbg u' = Some (spec_api_list shs su').
+Proof. exact hostname_equiv. Qed.
+Check C07_hostname_equiv : forall dbg hp ho hd shp shs, host_fns_ok hp ho hd shp shs ->
+  forall u su v, corrS dbg shs u su -> usv_list v -> known_c07 u QHostname v = 0 ->
+  exists u' su', model_set dbg hp ho hd QHostname u v = Some u' /\ spec_step shp QHostname su v = Some su'
+    /\ corrS dbg shs u' su' /\ model_api dbg u' = Some (spec_api_list shs su').
+Print Assumptions C07_hostname_equiv.
+
+(* PARTIAL C07_statement: its one-step clause (`one_step`) with R := corrS, restricted to seven of the ten
+   setters and to values that are strings of scalar values.  Missing: host, pathname, href; hostname on
+   file URLs (class 4 excludes them all); parse => corrS for special schemes. *)
+Theorem C07_seven_setters_partial : forall dbg hp ho hd shp shs, host_fns_ok hp ho hd shp shs ->
+  forall u su s v, corrS dbg shs u su -> seven s = true -> usv_list v -> known_c07 u s v = 0 ->
+  exists u' su', model_set dbg hp ho hd s u v = Some u' /\ spec_step shp s su v = Some su'
+    /\ corrS dbg shs u' su' /\ model_api dbg u' = Some (spec_api_list shs su').
+Proof. exact seven_step_api. Qed.
+Check C07_seven_setters_partial : forall dbg hp ho hd shp shs, host_fns_ok hp ho hd shp shs ->
+  forall u su s v, corrS dbg shs u su -> seven s = true -> usv_list v -> known_c07 u s v = 0 ->
+  exists u' su', model_set dbg hp ho hd s u v = Some u' /\ spec_step shp s su v = Some su'
+    /\ corrS dbg shs u' su' /\ model_api dbg u' = Some (spec_api_list shs su').
+Print Assumptions C07_seven_setters_partial.
+
+(* ... along every history of assignments through the seven setters *)
+Theorem C07_seven_histories : forall dbg hp ho hd shp shs, host_fns_ok hp ho hd shp shs ->
+  forall ops u su, corrS dbg shs u su -> seven_ops ops -> outside_known dbg hp ho hd u ops ->
+  forall n, exists u' su',
+    model_run dbg hp ho hd u (firstn n ops) = Some u'
+    /\ spec_run shp su (firstn n ops) = Some su'
+    /\ corrS dbg shs u' su'
+    /\ model_api dbg u' = Some (spec_api_list shs su').
+Proof. exact seven_histories. Qed.
+Check C07_seven_histories : forall dbg hp ho hd shp shs, host_fns_ok hp ho hd shp shs ->
+  forall ops u su, corrS dbg shs u su -> seven_ops ops -> outside_known dbg hp ho hd u ops ->
+  forall n, exists u' su',
+    model_run dbg hp ho hd u (firstn n ops) = Some u'
+    /\ spec_run shp su (firstn n ops) = Some su'
+    /\ corrS dbg shs u' su'
+    /\ model_api dbg u' = Some (spec_api_list shs su').
+Print Assumptions C07_seven_histories.
+
+(* C07_statement restricted to the seven setters and to start URLs of the three proved no-base classes of
+   non-special schemes (opaque path; "scheme:/path"; "scheme://authority" with the two host hypotheses of
+   C07_authority_class_corrS): parse, then any sequence of assignments with any values - the ten API strings
+   agree at the start and after every prefix *)
+Theorem C07_seven_classes : forall dbg hp ho hd shp shs, host_fns_ok hp ho hd shp shs ->
+  forall input u ops, usv_list input -> in_corrS_class ho hd shp shs input ->
+  parse_url dbg hp ho hd None None input = POk u ->
+  seven_ops ops -> outside_known dbg hp ho hd u ops ->
+  exists su, spec_basic_url_parse shp input None = BDone su
+    /\ model_api dbg u = Some (spec_api_list shs su)
+    /\ forall n, exists u' su',
+         model_run dbg hp ho hd u (firstn n ops) = Some u'
+         /\ spec_run shp su (firstn n ops) = Some su'
+         /\ model_api dbg u' = Some (spec_api_list shs su').
+Proof. exact seven_from_classes. Qed.
+Check C07_seven_classes : forall dbg hp ho hd shp shs, host_fns_ok hp ho hd shp shs ->
+  forall input u ops, usv_list input -> in_corrS_class ho hd shp shs input ->
+  parse_url dbg hp ho hd None None input = POk u ->
+  seven_ops ops -> outside_known dbg hp ho hd u ops ->
+  exists su, spec_basic_url_parse shp input None = BDone su
+    /\ model_api dbg u = Some (spec_api_list shs su)
+    /\ forall n, exists u' su',
+         model_run dbg hp ho hd u (firstn n ops) = Some u'
+         /\ spec_run shp su (firstn n ops) = Some su'
+         /\ model_api dbg u' = Some (spec_api_list shs su').
+Print Assumptions C07_seven_classes.
+
+(* in the shape of C07_statement: ONE abstraction relation (corrS) with the three clauses - related records
+   show the same ten API strings; parsing an input of the three classes (in_corrS_class: opaque path,
+   "scheme:/path", "scheme://authority" with its two host hypotheses) yields related records; every
+   assignment through the seven setters outside Known_C07 neither panics nor runs out of fuel and yields
+   related records.  Against C07_statement: seven setters instead of ten, three input classes instead of
+   "outside Known_C01", host_fns_ok instead of hosts_agree, values that are scalar-value strings. *)
+Theorem C07_statement_seven_classes : forall dbg hp ho hd shp shs, host_fns_ok hp ho hd shp shs ->
+  exists R : url -> spec_url -> Prop,
+    (forall u su, R u su -> model_api dbg u = Some (spec_api_list shs su))
+    /\ (forall input u, usv_list input -> in_corrS_class ho hd shp shs input ->
+          parse_url dbg hp ho hd None None input = POk u ->
+          exists su, spec_basic_url_parse shp input None = BDone su /\ R u su)
+    /\ (forall u su s v, R u su -> seven s = true -> usv_list v -> known_c07 u s v = 0 ->
+          exists u' su', model_set dbg hp ho hd s u v = Some u' /\ spec_step shp s su v = Some su' /\ R u' su').
+Proof. exact statement_seven_classes. Qed.
+Check C07_statement_seven_classes : forall dbg hp ho hd shp shs, host_fns_ok hp ho hd shp shs ->
+  exists R : url -> spec_url -> Prop,
+    (forall u su, R u su -> model_api dbg u = Some (spec_api_list shs su))
+    /\ (forall input u, usv_list input -> in_corrS_class ho hd shp shs input ->
+          parse_url dbg hp ho hd None None input = POk u ->
+          exists su, spec_basic_url_parse shp input None = BDone su /\ R u su)
+    /\ (forall u su s v, R u su -> seven s = true -> usv_list v -> known_c07 u s v = 0 ->
+          exists u' su', model_set dbg hp ho hd s u v = Some u' /\ spec_step shp s su v = Some su' /\ R u' su').
+Print Assumptions C07_statement_seven_classes.
+
+(* the 35 start URLs of the small scope and of the protocol table (http, https, ws, ftp, file, non-special,
+   opaque path, empty host, credentials, port, "/." marker), parsed with the safe host functions below, are
+   related by corrS to their Standard's parse (by computation): for them the ten API strings agree after
+   every prefix of every history of the seven setters, whatever the values - special and file URLs included *)
+Theorem C07_seven_small_starts : forall st ops, In st (small_starts ++ proto_starts) -> seven_ops ops ->
+  forall u, safe_parse st = Some u -> outside_known true safe_hp safe_ho toy_hd u ops ->
+  exists su, safe_sparse st = Some su
+    /\ forall n, exists u' su',
+         model_run true safe_hp safe_ho toy_hd u (firstn n ops) = Some u'
+         /\ spec_run safe_shp su (firstn n ops) = Some su'
+         /\ model_api true u' = Some (spec_api_list toy_shs su').
+Proof. exact seven_from_small_starts. Qed.
+Print Assumptions C07_seven_small_starts.
+
+(* the hypothesis on the host functions can be met: every non-empty text that starts with neither ':' nor
+   '@' is a domain / an opaque host that serialises as itself *)
+Theorem C07_host_fns_ok_inhabited : host_fns_ok safe_hp safe_ho toy_hd safe_shp toy_shs.
+Proof. exact safe_host_fns_ok. Qed.
+Print Assumptions C07_host_fns_ok_inhabited.
+
+(* ... and a seven-setter history on a start URL of the authority class, with these functions: "n://u@h:8/p",
+   hostname := "x.y/z", protocol := "m", hostname := "" (refused: credentials), port := "", username := "",
+   hostname := "" *)
+Example C07_seven_inhabited :
+  let input := str "n://u@h:8/p" in
+  let ops := [(QHostname, str "x.y/z"); (QProtocol, str "m"); (QHostname, []); (QPort, []); (QUsername, []); (QHostname, [])] in
+  usv_list input /\ in_class_authority input = true
+  /\ host_agree safe_ho toy_hd safe_shp toy_shs (class_host_text input)
+  /\ host_extra safe_ho toy_hd safe_shp (class_host_text input)
+  /\ seven_ops ops
+  /\ exists u, parse_url true safe_hp safe_ho toy_hd None None input = POk u
+       /\ outside_known true safe_hp safe_ho toy_hd u ops
+       /\ option_map q_href (model_run true safe_hp safe_ho toy_hd u ops) = Some (str "m:///p").
+Proof.
+  cbv zeta. split; [repeat constructor; vm_compute; auto|]. split; [vm_compute; reflexivity|].
+  split; [unfold host_agree; vm_compute; repeat split; try reflexivity; intros H; discriminate H|].
+  split; [unfold host_extra; vm_compute; repeat split; try reflexivity; intros H; discriminate H|].
+  split; [cbn [seven_ops seven]; repeat split; repeat constructor; vm_compute; auto|].
+  eexists. split; [vm_compute; reflexivity|]. split; vm_compute; repeat split.
+Qed.
 
 (* ---------- clauses of the Standard's setters, for all records and values ---------- *)
 
